@@ -415,7 +415,9 @@ def IsCompatible(left, right):
         if left.GetSize() != right.GetSize():
             return False
         else:
-            return IsCompatible(left.GetType(), right.GetType())
+            return IsCompatible(
+                left.GetComponentType(), right.GetComponentType()
+            )
     elif left.IsPrimitive() and right.IsPrimitive():
         if isinstance(left, Void) or isinstance(right, Void):
             return isinstance(left, Void) and isinstance(right, Void)
@@ -430,8 +432,8 @@ def IsCompatible(left, right):
         if left.IsVector() and right.IsVector():
             return left.GetSize() == right.GetSize()
         elif left.IsMatrix() and right.IsMatrix():
-            return (left.GetRows() == right.GetRows()) and (
-                left.GetColumns() == right.GetColumns()
+            return (left.GetRowCount() == right.GetRowCount()) and (
+                left.GetColumnCount() == right.GetColumnCount()
             )
         elif left.IsScalar() and right.IsScalar():
             return True
